@@ -154,7 +154,34 @@ def op_des(cmd):
         re = b"".join(bytes(x) for x in ns.serialize(o)).hex()
     except Exception as e:
         re = "EXC:%s" % type(e).__name__
-    return {"st": "ok", "value": jval(t, v), "reser": re}
+    # what an application may do with an object it owns: change its arrays in place.  Nothing decoded later may be affected.
+    n = scribble(t, o)
+    return {"st": "ok", "value": jval(t, v), "reser": re, "scribbled": n}
+
+
+def scribble(t, obj):
+    """Overwrites, in place, every writable NumPy array reachable from a decoded object; returns how many were written."""
+    n = 0
+    it = M.inner(t)
+    for f in (it.fields if isinstance(it, pydsdl.UnionType) else it.fields_except_padding):
+        try:
+            v = ns.get_attribute(obj, f.name)
+        except Exception:
+            continue
+        if v is None:
+            continue
+        dt = f.data_type
+        if isinstance(dt, pydsdl.CompositeType):
+            n += scribble(dt, v)
+        elif isinstance(dt, pydsdl.ArrayType):
+            if isinstance(v, np.ndarray) and v.dtype != object:
+                if v.flags.writeable and v.size:
+                    v.fill(True if v.dtype == np.bool_ else (1.5 if v.dtype.kind == "f" else 0x55))
+                    n += 1
+            elif isinstance(dt.element_type, pydsdl.CompositeType):
+                for e in v:
+                    n += scribble(dt.element_type, e)
+    return n
 
 
 def op_ser(cmd):
@@ -162,7 +189,21 @@ def op_ser(cmd):
     o = to_object(t, unj(t, cmd["value"]))
     b = b"".join(bytes(x) for x in ns.serialize(o))
     back = ns.deserialize(ns.get_class(t), [memoryview(b)])
-    return {"st": "ok", "hex": b.hex(), "back": jval(t, to_value(t, back)) if back is not None else None}
+    out = {"st": "ok", "hex": b.hex(), "back": jval(t, to_value(t, back)) if back is not None else None}
+    # the same round trip with live objects and no copies in between: the decoder is fed the serializer's own fragments, and the
+    # decoded object is serialized again (ser(des(ser(v))) as an application that forwards messages performs it)
+    try:
+        frs = list(ns.serialize(o))
+        live = ns.deserialize(ns.get_class(t), frs)
+        if live is not None:
+            before = json.dumps(jval(t, to_value(t, live)), sort_keys=True)
+            out["live_hex"] = b"".join(bytes(x) for x in ns.serialize(live)).hex()
+            out["live_stable"] = before == json.dumps(jval(t, to_value(t, live)), sort_keys=True)
+        else:
+            out["live_hex"] = "NONE"
+    except Exception as e:
+        out["live_hex"] = "EXC:%s: %s" % (type(e).__name__, str(e)[:120])
+    return out
 
 
 def op_consts(cmd):
